@@ -1,6 +1,6 @@
 """C11 — escaping is lossless and produces printable text (table and shape clauses)."""
 from ..cfgq import bool_edges, cond_tree, stmt_loc
-from ..facts import AnchorError, Origins, callee_name, method_name, peel
+from ..facts import AnchorError, Origins, callee_name, method_name, mname, peel
 from ..fmtq import FmtError, pieces
 from . import escape_tables as et
 
@@ -97,6 +97,117 @@ def _has_unprintable_set(prog):
     return cl, out
 
 
+class _Unit:
+    """how escaped_printable_unicode treats one character: a `.map(|c| ..)` closure (emissions = its return values) or the
+    body of a `for c in s.chars()` loop (emissions = pushes onto the result string)"""
+
+    def __init__(self, prog):
+        from ..cfgq import variant_edges
+        self.prog = prog
+        u = self.u = prog.fn("escaped_printable_unicode")
+        cls = [c for c in prog.closures_of(u) if any(method_name(callee_name(t, resolved=False) or "").endswith("is_other") for _, t in c.calls())
+               and any((callee_name(t) or "").endswith("escaped_printable_ascii") for _, t in c.calls())]
+        if len(cls) == 1:
+            self.kind, self.body, self.start, self.stop = "closure", cls[0], 0, ()
+            self.o = Origins(self.body)
+            self.is_char = lambda pl: pl["l"] == 2 and not pl["p"]
+            self.flag_closures = [c for c in prog.closures_of(u) if c is not cls[0]]
+            return
+        nexts = [(bb, t) for bb, t in u.calls() if mname(t) == "Iterator::next" and "Chars" in (t.get("self_ty") or "")]
+        inner = any(method_name(callee_name(t, resolved=False) or "").endswith("is_other") for _, t in u.calls())
+        if len(nexts) != 1 or not inner:
+            raise AnchorError("escaped_printable_unicode: neither a per-char closure nor a per-char loop found")
+        nb, nt = nexts[0]
+        ve, rv = variant_edges(u, nt["target"])
+        if ve is None or "Some" not in ve:
+            raise AnchorError("escaped_printable_unicode: chars().next() is not matched")
+        self.kind, self.body, self.start = "loop", u, ve["Some"]
+        self.o = Origins(u)
+        heads = {h for _, h in u.back_edges()}
+        self.stop = tuple(heads)
+        # the char local: assigned from (next as Some).0 in the first body block
+        ch = None
+        for st in u.blocks[self.start]["stmts"]:
+            if st["k"] == "assign" and not st["lhs"]["p"] and st["rv"]["k"] == "use":
+                src = st["rv"]["op"].get("copy") or st["rv"]["op"].get("move")
+                if src and src["l"] == nt["dest"]["l"] and src["p"]:
+                    ch = st["lhs"]["l"]
+        if ch is None:
+            raise AnchorError("escaped_printable_unicode: loop variable not found")
+        self.ch = ch
+
+        ch_canon = u.canon_place({"l": ch, "p": []})
+
+        def is_char(pl):
+            return (pl["l"] == ch and not pl["p"]) or u.canon_place(pl) == ch_canon
+        self.is_char = is_char
+        self.flag_closures = list(prog.closures_of(u))
+        # result string: the local moved into _0
+        self.result = None
+        r = peel(self.o.local(0))
+        for n in r.walk():
+            if n.kind == "call" and method_name(n.a) in ("String::new", "String::with_capacity") and n.at is not None:
+                self.result = u.blocks[n.at[0]]["term"]["dest"]["l"]
+
+    def where(self):
+        return self.body.where()
+
+    def emissions(self, blocks=None):
+        """[(bb, kind, tree)] with kind in raw | doubled | escaped | other"""
+        b, o = self.body, self.o
+        out = []
+        if self.kind == "closure":
+            for d in b.defs.get(0, []):
+                if blocks is not None and d[0] not in blocks:
+                    continue
+                tree = o._def(d, 0, ())
+                src = peel(tree.kids[0]) if tree.kind == "call" and tree.kids else tree
+                if tree.kind == "call" and method_name(tree.a) == "ToString::to_string" and src.kind == "const" and src.a.as_str() == "\\\\":
+                    out.append((d[0], "doubled", tree))
+                elif tree.kind == "call" and method_name(tree.a) == "ToString::to_string" and src.kind == "arg" and src.a == 2:
+                    out.append((d[0], "raw", tree))
+                elif tree.kind == "call" and tree.a.endswith("escaped_printable_ascii"):
+                    out.append((d[0], "escaped", tree))
+                else:
+                    out.append((d[0], "other", tree))
+            return out
+        from .c16 import mut_calls
+        if self.result is None:
+            raise AnchorError("escaped_printable_unicode: result string not found")
+        for bb, t in mut_calls(b, self.result):
+            if blocks is not None and bb not in blocks:
+                continue
+            m = mname(t)
+            if m not in ("String::push", "String::push_str"):
+                out.append((bb, "other", o.operand(t["args"][1]) if len(t["args"]) > 1 else None))
+                continue
+            tree = o.operand(t["args"][1])
+            src = peel(tree)
+            pl = t["args"][1].get("copy") or t["args"][1].get("move")
+            if m == "String::push_str" and src.kind == "const" and src.a.as_str() == "\\\\":
+                out.append((bb, "doubled", tree))
+            elif m == "String::push" and pl is not None and self.is_char(pl):
+                out.append((bb, "raw", tree))
+            elif m == "String::push_str" and any(n.kind == "call" and n.a.endswith("escaped_printable_ascii") for n in tree.walk()):
+                out.append((bb, "escaped", tree))
+            else:
+                out.append((bb, "other", tree))
+        return out
+
+    def flag_is_any_other(self, fork_block):
+        """the bool decided in `fork_block` is `s.chars().any(|c| c.is_other())`"""
+        b, o = self.body, self.o
+        t = b.blocks[fork_block]["term"]
+        n = peel(o.operand(t["discr"]))
+        if self.kind == "closure":
+            if n.kind == "field" and str(n.a).isdigit():
+                from .c16 import _upvar_origin
+                up = _upvar_origin(self.prog, b, int(n.a))
+                return up is not None and up.has_call("Iterator::any") and _any_is_other(self.prog, self.u, up)
+            return False
+        return n.has_call("Iterator::any") and _any_is_other(self.prog, self.u, n)
+
+
 def r11_2(ctx):
     prog = ctx.prog
     # ascii: raw rendering only under !has_unprintable, otherwise byte_to_ascii for every byte
@@ -131,51 +242,39 @@ def r11_2(ctx):
     esc = {b for b in range(256) if enc[b] != ("id",)} - {ord("\\")}
     ctx.check(unp == esc, "ascii-guard-agrees", cl.where(), "has_unprintable_ascii is true exactly for the bytes byte_to_ascii escapes (other than `\\`)",
               "has_unprintable_ascii and byte_to_ascii disagree on %s" % sorted("0x%02x" % b for b in unp ^ esc)[:8])
-    # unicode: the per-char closure must not emit `\` raw when any escape is emitted in the same rendering
-    u = prog.fn("escaped_printable_unicode")
-    ou = Origins(u)
-    cls = [c for c in prog.closures_of(u) if any(method_name(callee_name(t, resolved=False) or "").endswith("is_other") for _, t in c.calls())
-           and any((callee_name(t) or "").endswith("escaped_printable_ascii") for _, t in c.calls())]
-    if len(cls) != 1:
-        raise AnchorError("escaped_printable_unicode: expected one per-char closure, found %d" % len(cls))
-    c = cls[0]
-    oc = Origins(c)
+    # unicode: the per-char unit must not emit `\\` raw when any escape is emitted in the same rendering
+    unit = _Unit(prog)
+    c = unit.body
 
     def oracle(t, val):
         m = method_name(callee_name(t, resolved=False) or "")
         if m.endswith("is_other") and val(t["args"][0]) == ord("\\"):
             return 0
         return None
-    rs = et.follow_all(c, ord("\\"), lambda pl: pl["l"] == 2 and not pl["p"], oracle)
+    rs = et.follow_all(c, ord("\\"), unit.is_char, oracle, start=unit.start, stop=unit.stop)
     for r in rs:
-        d = [x for x in c.defs.get(0, []) if x[0] in r["path"]]
-        if len(d) != 1:
-            ctx.bad("unicode-backslash", c.where(), "cannot determine what the closure returns for `\\`")
+        em = unit.emissions(set(r["path"]))
+        if len(em) != 1:
+            ctx.bad("unicode-backslash", unit.where(), "cannot determine what is emitted for `\\` (%d emissions on a path)" % len(em))
             continue
-        tree = oc._def(d[0], 0, ())
-        where = c.loc(d[0][0])
-        src = peel(tree.kids[0]) if tree.kind == "call" and tree.kids else tree
-        if tree.kind == "call" and method_name(tree.a) == "ToString::to_string" and src.kind == "const" and src.a.as_str() == "\\\\":
+        bb, kind, tree = em[0]
+        where = c.loc(bb)
+        if kind == "doubled":
             ctx.ok("unicode-backslash-doubled", where, "`\\` is doubled on this path")
             continue
-        if tree.kind == "call" and method_name(tree.a) == "ToString::to_string" and src.kind == "arg" and src.a == 2:
+        if kind == "raw":
             # raw emission: acceptable only on the false edge of a flag that is `any(is_other)` of the same string
             guarded = False
             for fb, tg in r["forks"]:
-                t = c.blocks[fb]["term"]
-                n = peel(oc.operand(t["discr"]))
                 be = bool_edges(c, fb)
-                if be and tg == be[1] and n.kind == "field" and n.a.isdigit():
-                    from .c16 import _upvar_origin
-                    up = _upvar_origin(prog, c, int(n.a))
-                    if up is not None and up.has_call("Iterator::any") and _any_is_other(prog, u, up):
-                        guarded = True
+                if be and tg == be[1] and unit.flag_is_any_other(fb):
+                    guarded = True
             ctx.check(guarded, "unicode-backslash-raw", where,
                       "`\\` is emitted unchanged only when no character of the line is escaped (flag = chars().any(is_other) is false)",
                       "escaped_printable_unicode emits the decoder's introducer `\\` unchanged while other characters of the same line are "
                       "escaped: `a\\tb<ESC>` renders as `a\\tb\\x1b (escaped)` and `\\t` decodes to TAB")
             continue
-        ctx.bad("unicode-backslash", where, "unrecognised rendering of `\\`: %s" % tree.show()[:120])
+        ctx.bad("unicode-backslash", where, "unrecognised rendering of `\\`: %s" % (tree.show()[:120] if tree is not None else "?"))
 
 
 def _any_is_other(prog, body, node):
@@ -330,29 +429,28 @@ def r11_3(ctx):
 
 def r11_4(ctx):
     prog = ctx.prog
-    u = prog.fn("escaped_printable_unicode")
-    cls = [c for c in prog.closures_of(u) if any(method_name(callee_name(t, resolved=False) or "").endswith("is_other") for _, t in c.calls())
-           and any((callee_name(t) or "").endswith("escaped_printable_ascii") for _, t in c.calls())]
-    if len(cls) != 1:
-        raise AnchorError("escaped_printable_unicode: per-char closure not found")
-    c = cls[0]
-    oc = Origins(c)
-    tests = [(bb, t) for bb, t in c.calls() if method_name(callee_name(t, resolved=False) or "").endswith("is_other")]
+    unit = _Unit(prog)
+    u, c = unit.u, unit.body
+    region = None
+    if unit.kind == "loop":
+        region = set(c.reachable(unit.start, removed_edges=c.back_edges()))
+    tests = [(bb, t) for bb, t in c.calls() if method_name(callee_name(t, resolved=False) or "").endswith("is_other") and (region is None or bb in region)]
+    if not tests:
+        raise AnchorError("escaped_printable_unicode: no is_other test per character")
     bb, t = tests[0]
     be = bool_edges(c, t["target"])
     if be is None:
         raise AnchorError("is_other result is not branched on")
     t_true, t_false = be
-    for d in c.defs.get(0, []):
-        tree = oc._def(d, 0, ())
-        src = peel(tree.kids[0]) if tree.kind == "call" and tree.kids else tree
-        if tree.kind == "call" and method_name(tree.a) == "ToString::to_string" and src.kind == "arg":
-            ctx.check(d[0] not in c.reachable(t_true, removed_edges=c.back_edges()) or d[0] in c.reachable(t_false), "raw-only-printable", c.loc(d[0]),
+    back = c.back_edges()
+    for eb, kind, tree in unit.emissions(region):
+        if kind == "raw":
+            ctx.check(eb not in c.reachable(t_true, removed_edges=back) or eb in c.reachable(t_false, removed_edges=back), "raw-only-printable", c.loc(eb),
                       "a character is emitted unchanged only on the !is_other edge")
-            ctx.check(d[0] not in set(c.reachable(t_true)) - set(c.reachable(t_false)), "raw-not-on-other", c.loc(d[0]),
+            ctx.check(eb not in set(c.reachable(t_true, removed_edges=back)) - set(c.reachable(t_false, removed_edges=back)), "raw-not-on-other", c.loc(eb),
                       "no raw emission exclusive to the is_other edge")
-        elif tree.kind == "call" and tree.a.endswith("escaped_printable_ascii"):
-            ctx.check(d[0] in c.reachable(t_true) and d[0] not in c.reachable(0, removed_edges=[(t["target"], t_true)]), "other-escaped", c.loc(d[0]),
+        elif kind == "escaped":
+            ctx.check(eb in c.reachable(t_true, removed_edges=back) and eb not in c.reachable(unit.start, removed_edges=list(back) + [(t["target"], t_true)]), "other-escaped", c.loc(eb),
                       "`other`-category characters are rendered through escaped_printable_ascii of their UTF-8 bytes")
     # invalid UTF-8 falls back to the ascii renderer
     o = Origins(u)
@@ -360,10 +458,12 @@ def r11_4(ctx):
     ctx.check(len(fb) == 1, "invalid-utf8-fallback", u.where(), "non-UTF-8 input falls back to escaped_printable_ascii(bytes)")
 
 
-def _char_predicates(body):
+def _char_predicates(body, blocks=None):
     """names of char-classification methods called in a body (`is_other`, `is_control`, ...)"""
     out = set()
     for bb, t in body.calls():
+        if blocks is not None and bb not in blocks:
+            continue
         m = method_name(callee_name(t, resolved=False) or "")
         last = m.split("::")[-1]
         if last.startswith("is_") and (m.startswith("UnicodeCategories::") or m.startswith("char::") or "char" in (t.get("self_ty") or "")):
@@ -378,13 +478,17 @@ def r11_5(ctx):
     prog = ctx.prog
     u = prog.fn("escaped_printable_unicode")
     h = prog.fn("has_unprintable_unicode")
-    per_char = [c for c in prog.closures_of(u) if any((callee_name(t) or "").endswith("escaped_printable_ascii") for _, t in c.calls())]
-    flag = [c for c in prog.closures_of(u) if c not in per_char]
+    unit = _Unit(prog)
+    flag = unit.flag_closures
     hc = prog.closures_of(h)
-    if len(per_char) != 1:
-        raise AnchorError("escaped_printable_unicode: per-char closure not found")
-    p_escape = _char_predicates(per_char[0])
-    ctx.check(p_escape == {"is_other"}, "escape-predicate", per_char[0].where(), "a character is escaped iff UnicodeCategories::is_other(c)",
+    if unit.kind == "closure":
+        p_escape = _char_predicates(unit.body)
+        pc_where = unit.body.where()
+    else:
+        region = set(u.reachable(unit.start, removed_edges=u.back_edges()))
+        p_escape = _char_predicates(u, region)
+        pc_where = u.loc(unit.start)
+    ctx.check(p_escape == {"is_other"}, "escape-predicate", pc_where, "a character is escaped iff UnicodeCategories::is_other(c)",
               "the escape decision uses %s" % sorted(p_escape))
     p_has = set()
     for c in hc:
